@@ -37,6 +37,9 @@ pub tracked struct World {
     pub ghost hint: Map<u64, HintG>,
     /// every data-file id ever created in this directory
     pub ghost ever: Set<u64>,
+    /// readers currently parked in the handle's reader pool / its capacity (ArrayQueue, T8)
+    pub ghost pool_free: nat,
+    pub ghost pool_cap: nat,
 }
 pub open spec fn empty_data() -> DataG { DataG { recs: Seq::empty(), size: 0, torn: false, synced: 0 } }
 pub open spec fn empty_hint() -> HintG { HintG { recs: Seq::empty(), torn: false } }
@@ -328,3 +331,55 @@ impl AtomicCell<bool> {
     pub fn store(&mut self, v: bool) ensures final(self)@ == v { unimplemented!() }
 }
 impl core::fmt::Debug for AtomicCell<bool> { #[verifier::external_body] fn fmt(&self, f: &mut core::fmt::Formatter<'_>) -> core::fmt::Result { unimplemented!() } }
+
+/// what a lock / pool hands out satisfies its invariant w.r.t. the current World; every operation on the
+/// protected object re-establishes it (rely / guarantee; the guarantee half is what the contracts prove)
+pub trait SharedInv { spec fn shared_inv(&self, w: &World) -> bool; }
+
+#[verifier::external_body]
+#[verifier::reject_recursive_types(T)]
+pub struct Mutex<T> { t: T }
+#[verifier::reject_recursive_types(T)]
+pub struct MutexGuard<'a, T> { pub v: &'a mut T }
+impl<'a, T> core::ops::Deref for MutexGuard<'a, T> { type Target = T; fn deref(&self) -> (r: &T) ensures *r == mut_ref_current(self.v) { &*self.v } }
+impl<'a, T> core::ops::DerefMut for MutexGuard<'a, T> {
+    fn deref_mut(&mut self) -> (r: &mut T)
+        ensures *r == *(old(self).v), *(final(self).v) == *final(r), mut_ref_future(final(self).v) == mut_ref_future(old(self).v)
+    { &mut *self.v }
+}
+impl<T: SharedInv> Mutex<T> {
+    /// parking_lot::Mutex::lock: blocks until the lock is free, never poisons
+    #[verifier::external_body]
+    pub fn lock<'a>(&'a self, Tracked(w): Tracked<&mut World>) -> (g: MutexGuard<'a, T>)
+        ensures *final(w) == *old(w), mut_ref_current(g.v).shared_inv(final(w))
+    { unimplemented!() }
+}
+impl<T> core::fmt::Debug for Mutex<T> { #[verifier::external_body] fn fmt(&self, f: &mut core::fmt::Formatter<'_>) -> core::fmt::Result { unimplemented!() } }
+
+/// crossbeam ArrayQueue used as the reader pool; the number of parked readers is tracked in the World
+#[verifier::external_body]
+#[verifier::reject_recursive_types(T)]
+pub struct ArrayQueue<T> { t: core::marker::PhantomData<T> }
+impl<T: SharedInv> ArrayQueue<T> {
+    #[verifier::external_body]
+    pub fn pop(&self, Tracked(w): Tracked<&mut World>) -> (r: Option<T>)
+        ensures final(w).data == old(w).data, final(w).hint == old(w).hint, final(w).ever == old(w).ever, final(w).pool_cap == old(w).pool_cap,
+                r is None ==> final(w).pool_free == old(w).pool_free,
+                r matches Some(t) ==> old(w).pool_free >= 1 && final(w).pool_free == old(w).pool_free - 1 && t.shared_inv(final(w)),
+    { unimplemented!() }
+    #[verifier::external_body]
+    pub fn push(&self, t: T, Tracked(w): Tracked<&mut World>) -> (r: Result<(), T>)
+        ensures final(w).data == old(w).data, final(w).hint == old(w).hint, final(w).ever == old(w).ever, final(w).pool_cap == old(w).pool_cap,
+                old(w).pool_free < old(w).pool_cap ==> r is Ok && final(w).pool_free == old(w).pool_free + 1,
+                r is Err ==> final(w).pool_free == old(w).pool_free,
+    { unimplemented!() }
+}
+impl<T> core::fmt::Debug for ArrayQueue<T> { #[verifier::external_body] fn fmt(&self, f: &mut core::fmt::Formatter<'_>) -> core::fmt::Result { unimplemented!() } }
+#[verifier::external_body]
+pub struct Backoff { k: usize }
+impl Backoff {
+    #[verifier::external_body]
+    pub fn new() -> Self { unimplemented!() }
+    #[verifier::external_body]
+    pub fn spin(&self) { unimplemented!() }
+}
